@@ -42,6 +42,8 @@ def cases(tier, seed):
                  long_stall=r.choice([0, 0, 0.01]), seed="C14/%d/%d" % (seed, k))
         c["name"] = "%04d-%s-w%d-%s%s%s-%s" % (k, c["port"], dw, "long" if long_run else "short", "-rd" if c["random_data"] else "",
                                                "-ra" if c["random_addr"] else "", c["corrupt"])
+        if k % 7 == 3:
+            c["recheck"] = True          # the checker runs twice over the same region
         if k % 5 == 2:
             # the run_cascade_in inputs (used to chain BIST units) pause generator and checker at random moments
             c["cascade"] = True
@@ -54,6 +56,8 @@ def cases(tier, seed):
             c["name"] += "-2runs"
         if c.get("cascade"):
             c["name"] += "-pause"
+        if c.get("recheck"):
+            c["name"] += "-recheck"
         c["cost"] = length_words
         out.append(c)
     # the same two cores on two ports of the real crossbar + controller + reference DRAM (rows, banks, refresh in the way)
@@ -235,6 +239,16 @@ def run_case(c):
         res["errors"] = yield dut.chk.errors
         for _ in range(20):
             yield
+        if ok and c.get("recheck"):
+            # the same region checked a second time by the same checker instance (its history now differs from the
+            # generator's): the count must be the same again
+            res["c_mid"] = len(chk_reads())
+            ok2 = yield from run_core(dut.chk)
+            res["errors2"] = yield dut.chk.errors
+            if not ok2:
+                res["v"].append(dict(kind="checker-not-done-within-bound", bound=bound, second_check=True, positions=npos))
+            for _ in range(20):
+                yield
 
     def pauser():
         yield "passive"
@@ -256,7 +270,16 @@ def run_case(c):
         v.append(dict(kind="no-progress"))
     tot = dict(positions=0, gen_writes=0, chk_reads=0, corrupted=0, errors=0, repeats=0)
     for ri, res in enumerate(results_per_round):
-        vr = judge_round(c, res, gen_writes()[res["g0"]:res.get("g1")], chk_reads()[res["c0"]:res.get("c1")], wb, ashift)
+        vr = judge_round(c, res, gen_writes()[res["g0"]:res.get("g1")], chk_reads()[res["c0"]:res.get("c_mid", res.get("c1"))], wb, ashift)
+        if res.get("c_mid") is not None and res.get("errors2") is not None:
+            gw_, cr2 = gen_writes()[res["g0"]:res.get("g1")], chk_reads()[res["c_mid"]:res.get("c1")]
+            if [a for a, d in cr2] != [a for a, d in gw_]:
+                vr.append(dict(kind="checker-address-sequence-differs", second_check=True, generator=[a for a, d in gw_][:3], checker=[a for a, d in cr2][:3]))
+            else:
+                exp2 = sum(1 for (g, c_) in zip(gw_, cr2) if g[1] != c_[1])
+                if res["errors2"] != exp2:
+                    vr.append(dict(kind="error-count-wrong", second_check=True, reported=res["errors2"], positions_that_differ=exp2,
+                                   first_check_reported=res["errors"]))
         for x in vr:
             x["run"] = ri + 1
             x["runs_on_this_instance"] = len(rounds)
